@@ -263,7 +263,7 @@ def _or(ps):
     return "(or false " + " ".join(_c(p) for p in ps) + ")"
 
 
-def run(o, tier, seed, log_path):
+def run(o, tier, seed, log_path, group=None):
     import scratch
     blocks, mir_path = load(log_path)
     fields = config_fields(scratch.REPO if hasattr(scratch, "REPO") else "/repo")
@@ -330,6 +330,10 @@ def run(o, tier, seed, log_path):
               [with_cond([p for p in okp if envvar(p, "exists") and envvar(p, "is_dir")], lambda p: f"(and {envvar(p, 'exists')} (not {envvar(p, 'is_dir')}))")]))
     q.append(("twin: a non-empty directory can be accepted|sat", [with_cond(okp, lambda p: nonempty(p))]))
     q.append(("twin: an empty directory can be accepted|sat", [with_cond(okp, lambda p: f"(not {nonempty(p)})")]))
+    if group == "reopen":   # clauses about a directory that already holds something
+        q = [x for x in q if ("non-empty" in x[0] or "exhaustive" in x[0] or "swallowed" in x[0] or "nothing but" in x[0]) and "twin: an empty" not in x[0]]
+    elif group == "create":  # clauses about an empty / missing / non-directory path
+        q = [x for x in q if ("empty directory" in x[0] and "non-empty" not in x[0]) or "exhaustive" in x[0] or "not a directory" in x[0] or "flushed" in x[0] or "swallowed" in x[0]]
     pre = "\n".join(w.decls)
     r = smt_common.decide(pre, q, log_path, primary="z3", second="cvc5")
     r["functions"] = ["global::database::validate_config_database (all paths; callee bodies and std::fs not entered)"]
@@ -339,8 +343,16 @@ def run(o, tier, seed, log_path):
     if r["verdict"] == "fail":
         r["failed_checks"] = [dict(function="global::database::validate_config_database", description=nm.split("|")[0], file="src/global/database.rs")
                               for nm in r["counterexamples"]]
-        r["which"] = "S1"
+        r["which"] = "S1." + (group or "all")
     return r
+
+
+def run_reopen(o, tier, seed, log_path):
+    return run(o, tier, seed, log_path, group="reopen")
+
+
+def run_create(o, tier, seed, log_path):
+    return run(o, tier, seed, log_path, group="create")
 
 
 WITNESS = r'''
@@ -390,7 +402,8 @@ def replay(result, log_path=None):
     import native
     out_dir = os.path.join(os.path.dirname(HERE), "evidence", "replay")
     os.makedirs(out_dir, exist_ok=True)
-    p = os.path.join(out_dir, "C20_S1.rs")
+    which = result.get("which", "S1")
+    p = os.path.join(out_dir, f"C20_{which}.rs")
     open(p, "w").write("// " + json.dumps(result.get("failed_checks")) + "\n" + WITNESS)
     st, out = native.run(p, "src/global/database.rs", "verif_s1_startup_guard")
     if log_path:
@@ -399,7 +412,7 @@ def replay(result, log_path=None):
     if st == "fail":
         return {"reproduced": True, "note": "native test verif_s1_startup_guard (real RocksDB, dev profile) fails: " + " ".join(out[-400:].split()), "path": p}
     # structural findings the native witness cannot exhibit without fault injection (a swallowed storage error)
-    p2 = os.path.join(out_dir, "C20_S1.mir.json")
+    p2 = os.path.join(out_dir, f"C20_{which}.mir.json")
     json.dump({"failed": result.get("failed_checks"), "paths": result.get("encoding", {}).get("paths")}, open(p2, "w"), indent=1)
     only_fault = all("swallowed" in (c.get("description") or "") or "flushed" in (c.get("description") or "") for c in result.get("failed_checks") or [])
     return {"reproduced": True if only_fault else None,
@@ -408,7 +421,8 @@ def replay(result, log_path=None):
 
 
 if __name__ == "__main__":
-    r = run(None, "quick", 0, None)
-    print(r["verdict"], r["detail"], r["solver_s"], r["queries"])
+    for g in ("reopen", "create"):
+        r = run(None, "quick", 0, None, group=g)
+        print(g, r["verdict"], r["detail"], r["solver_s"], r["queries"], list(r["smt"]["z3"].items()))
     for p in r["encoding"]["paths"]:
         print("   ", p["end"], p["conditions"], p["events"])
